@@ -24,6 +24,13 @@ def stream_bytes(n):
     return bytes((i * 7 + 3) % 251 for i in range(n)) if n < 4096 else (bytes(range(251)) * (n // 251 + 1))[:n]
 
 
+CALL_CAP = 2000      # far above what any script needs (script length + size/60000 + a few): beyond it the library is spinning
+
+
+class Spin(BaseException):
+    """the library keeps calling the socket although nothing can change any more"""
+
+
 class ScriptSock:
     """recv side"""
     def __init__(self, stream, script, ssl_like=False):
@@ -40,6 +47,8 @@ class ScriptSock:
 
     def recv(self, n, flags=0):
         self.calls += 1
+        if self.calls > CALL_CAP:
+            raise Spin()
         self.flags_seen.append(flags)
         # end of stream and fatal errors are sticky, as on a real socket
         if self.terminal == ("eof",):
@@ -106,6 +115,8 @@ class SendSock:
 
     def sendall(self, data):
         self.calls += 1
+        if self.calls > CALL_CAP:
+            raise Spin()
         ev = self._ev(("k", "all"))
         if ev[0] == "k":
             self.peer.extend(bytes(data))
@@ -124,6 +135,8 @@ class SendSock:
 
     def send(self, data):
         self.calls += 1
+        if self.calls > CALL_CAP:
+            raise Spin()
         n = len(data)
         ev = self._ev(("k", "all"))
         if ev[0] == "k":
@@ -165,6 +178,11 @@ def check_recv(size, avail, waitall, ssl_like, script, V, stats, errors, socketu
         got = ("ConnectionClosedError", getattr(x, "partialData", None))
     except Exception as x:
         got = ("other:" + type(x).__name__, None)
+    except Spin:
+        V("recv-does-not-terminate|%s" % (s.terminal[0] if s.terminal else "no-terminal-event"), "receive_data called the socket more than %d times without returning or raising (terminal event %r); size=%d avail=%d waitall=%s ssl=%s script=%r"
+          % (CALL_CAP, s.terminal, size, avail, waitall, ssl_like, script))
+        stats.points += s.calls
+        return "spin", s.terminal
     stats.points += s.calls
     term = s.terminal
     cfgs = "size=%d avail=%d waitall=%s ssl=%s script=%r" % (size, avail, waitall, ssl_like, script)
@@ -207,6 +225,10 @@ def check_send(n, blocking, script, V, stats, errors, socketutil, as_type):
         got = "ConnectionClosedError"
     except Exception as x:
         got = "other:" + type(x).__name__
+    except Spin:
+        V("send-does-not-terminate", "send_data called the socket more than %d times without returning or raising; n=%d blocking=%s script=%r" % (CALL_CAP, n, blocking, script))
+        stats.points += s.calls
+        return "spin", s.terminal
     stats.points += s.calls
     cfgs = "n=%d blocking=%s type=%s script=%r" % (n, blocking, as_type, script)
     peer = bytes(s.peer)
